@@ -3,9 +3,15 @@ package c16
 // C16 — privileged chain operations succeed only for current sudoers.
 //
 // A case = a world (sudo root, sudo contracts, authz grants) + a history of transactions, each a
-// list of messages (MsgEditSudoers, MsgChangeRoot, the four sudo-gated messages, MsgExec trees of
-// those), delivered through the real BeginBlock / DeliverTx so that a rejection is observed as the
-// full tx rollback the chain performs.
+// list of messages (MsgEditSudoers, MsgChangeRoot, the four sudo-gated messages, and trees of MESSAGE
+// CARRIERS around those: authz MsgExec, and MsgExecuteContract on a contract that re-dispatches the
+// messages it is given as Stargate messages — reflect.wasm — so that they go through app/wasmext's
+// handleSdkMessage), delivered through the real BeginBlock / DeliverTx so that a rejection is observed
+// as the full tx rollback the chain performs.
+//
+// Actors: ids 0..5 are key accounts, ids 6 and 7 are two reflect contract instances of the case, each
+// owned by a key account of the case (only the owner can make it dispatch).  Any actor can be the sudo
+// root, a listed sudo contract, a granter or a grantee.
 //
 // Observables per tx: accepted?, the sudoers read back (ids), and for each of the four stores the
 // property talks about (sudo, oracle, inflation, bank denom-metadata) whether the sha256 of its raw
@@ -13,14 +19,19 @@ package c16
 
 import (
 	"crypto/sha256"
+	"encoding/base64"
 	"encoding/json"
 	"fmt"
 	"math/rand"
+	"os"
 	"sort"
+	"strings"
 	"testing"
 	"time"
 
 	sdkmath "cosmossdk.io/math"
+	wasmkeeper "github.com/CosmWasm/wasmd/x/wasm/keeper"
+	wasmtypes "github.com/CosmWasm/wasmd/x/wasm/types"
 	abci "github.com/cometbft/cometbft/abci/types"
 	"github.com/cosmos/cosmos-sdk/crypto/keys/secp256k1"
 	cryptotypes "github.com/cosmos/cosmos-sdk/crypto/types"
@@ -29,6 +40,7 @@ import (
 	sdk "github.com/cosmos/cosmos-sdk/types"
 	"github.com/cosmos/cosmos-sdk/x/authz"
 	banktypes "github.com/cosmos/cosmos-sdk/x/bank/types"
+	"github.com/cosmos/gogoproto/proto"
 
 	. "verifharness/hx"
 
@@ -40,10 +52,16 @@ import (
 	tftypes "github.com/NibiruChain/nibiru/v2/x/tokenfactory/types"
 )
 
-const nActors = 6
+const (
+	nKeys      = 6 // ids 0..5: key accounts
+	nContracts = 2 // ids 6, 7: reflect contract instances
+	nActors    = nKeys + nContracts
+)
+
+func isContractID(i int) bool { return i >= nKeys && i < nActors }
 
 type c16Msg struct {
-	T       string   `json:"t"`                // edit | root | gated | exec
+	T       string   `json:"t"`                // edit | root | gated | exec | wasm
 	Action  string   `json:"action,omitempty"` // edit: add | remove | bogus
 	Sender  int      `json:"sender"`
 	Cs      []int    `json:"cs,omitempty"`      // edit: contracts
@@ -53,13 +71,14 @@ type c16Msg struct {
 	PV      int      `json:"pv,omitempty"`      // gated: 0 valid payload, 1 refused by ValidateBasic, 2 refused by the handler
 	V       int      `json:"v,omitempty"`       // gated: payload variant
 	Grantee int      `json:"grantee,omitempty"` // exec
-	Msgs    []c16Msg `json:"msgs,omitempty"`    // exec
+	C       int      `json:"c,omitempty"`       // wasm: the contract (6 | 7) that is executed by Sender and dispatches Msgs
+	Msgs    []c16Msg `json:"msgs,omitempty"`    // exec, wasm
 }
 
 type c16Grant struct {
 	Granter int    `json:"granter"`
 	Grantee int    `json:"grantee"`
-	Kind    string `json:"kind"` // edit | root | oracle | infl_edit | infl_toggle | meta | exec
+	Kind    string `json:"kind"` // edit | root | oracle | infl_edit | infl_toggle | meta | exec | wasm
 }
 
 type c16Case struct {
@@ -69,33 +88,90 @@ type c16Case struct {
 	Genesis   bool       `json:"genesis,omitempty"`
 	Root      int        `json:"root"`
 	Contracts []int      `json:"contracts"`
+	Owners    []int      `json:"owners"` // owner (key account) of contract 6 and of contract 7
 	Grants    []c16Grant `json:"grants"`
 	Txs       [][]c16Msg `json:"txs"`
 }
 
 type c16Obs struct {
-	OK         bool  `json:"ok"`
-	Root       int   `json:"root"`
-	Contracts  []int `json:"contracts"`
-	SameSudo   bool  `json:"same_sudo"`
-	SameOracle bool  `json:"same_oracle"`
-	SameInfl   bool  `json:"same_infl"`
-	SameMeta   bool  `json:"same_meta"`
+	OK         bool   `json:"ok"`
+	Root       int    `json:"root"`
+	Contracts  []int  `json:"contracts"`
+	SameSudo   bool   `json:"same_sudo"`
+	SameOracle bool   `json:"same_oracle"`
+	SameInfl   bool   `json:"same_infl"`
+	SameMeta   bool   `json:"same_meta"`
 	Code       uint32 `json:"code"`
 }
 
 type c16World struct {
 	c      *Chain
+	codeID uint64 // reflect.wasm stored on chain c (0 = not yet)
 	privs  []cryptotypes.PrivKey
-	addrs  []sdk.AccAddress
+	addrs  []sdk.AccAddress // key accounts, then the contracts of the case
 	ids    map[string]int
 	caseNo int
+}
+
+func repoDir() string {
+	if d := os.Getenv("VERIF_REPO"); d != "" {
+		return d
+	}
+	return "/repo"
+}
+
+var reflectCode []byte
+
+// storeReflect stores reflect.wasm (a contract that re-dispatches the messages its owner hands it) on
+// the chain of the world; the block must be open.
+func (w *c16World) storeReflect(t *testing.T) {
+	if reflectCode == nil {
+		bz, err := os.ReadFile(repoDir() + "/x/devgas/v1/keeper/testdata/reflect.wasm")
+		if err != nil {
+			t.Fatal(err)
+		}
+		reflectCode = bz
+	}
+	c := w.c
+	store := &wasmtypes.MsgStoreCode{Sender: sdk.AccAddress([]byte("c16-uploader________")).String(), WASMByteCode: reflectCode}
+	rsp, err := c.App.MsgServiceRouter().Handler(store)(c.Ctx(), store)
+	if err != nil {
+		t.Fatal(err)
+	}
+	var sr wasmtypes.MsgStoreCodeResponse
+	_ = c.App.AppCodec().Unmarshal(rsp.Data, &sr)
+	w.codeID = sr.CodeID
+}
+
+// instantiateContracts gives the case its two contract actors (ids 6, 7), owned by the given key accounts.
+func (w *c16World) instantiateContracts(t *testing.T, owners []int) {
+	c := w.c
+	for i := 0; i < nContracts; i++ {
+		inst := &wasmtypes.MsgInstantiateContract{Sender: w.addrs[owners[i]].String(), CodeID: w.codeID,
+			Label: fmt.Sprintf("reflect-%d-%d", w.caseNo, i), Msg: []byte(`{}`)}
+		rsp, err := c.App.MsgServiceRouter().Handler(inst)(c.Ctx(), inst)
+		if err != nil {
+			t.Fatal(err)
+		}
+		var ir wasmtypes.MsgInstantiateContractResponse
+		_ = c.App.AppCodec().Unmarshal(rsp.Data, &ir)
+		a := sdk.MustAccAddressFromBech32(ir.Address)
+		if len(w.addrs) > nKeys+i {
+			// predicted before the chain existed (genesis cases)
+			if !w.addrs[nKeys+i].Equals(a) {
+				t.Fatalf("contract address prediction failed: %s vs %s", w.addrs[nKeys+i], a)
+			}
+			continue
+		}
+		w.addrs = append(w.addrs, a)
+		w.ids[a.String()] = nKeys + i
+	}
 }
 
 func (w *c16World) freshActors(t *testing.T) {
 	w.caseNo++
 	w.privs, w.addrs, w.ids = nil, nil, map[string]int{}
-	for i := 0; i < nActors; i++ {
+	for i := 0; i < nKeys; i++ {
 		p := secp256k1.GenPrivKeyFromSecret([]byte(fmt.Sprintf("c16-actor-%d-%d", w.caseNo, i)))
 		a := sdk.AccAddress(p.PubKey().Address())
 		w.privs = append(w.privs, p)
@@ -105,7 +181,7 @@ func (w *c16World) freshActors(t *testing.T) {
 }
 
 func (w *c16World) fundActors(t *testing.T) {
-	for _, a := range w.addrs {
+	for _, a := range w.addrs[:nKeys] {
 		if err := w.c.Fund(a, Unibi(1_000_000)); err != nil {
 			t.Fatal(err)
 		}
@@ -128,6 +204,8 @@ func typeURL(kind string) string {
 		return sdk.MsgTypeURL(&inflationtypes.MsgToggleInflation{})
 	case "meta":
 		return sdk.MsgTypeURL(&tftypes.MsgSudoSetDenomMetadata{})
+	case "wasm":
+		return sdk.MsgTypeURL(&wasmtypes.MsgExecuteContract{})
 	default:
 		return sdk.MsgTypeURL(&authz.MsgExec{})
 	}
@@ -166,6 +244,9 @@ func normalise(ms []c16Msg) {
 			}
 		case "exec":
 			m.Grantee = ((m.Grantee % nActors) + nActors) % nActors
+			normalise(m.Msgs)
+		case "wasm":
+			m.C = nKeys + ((m.C%nContracts)+nContracts)%nContracts
 			normalise(m.Msgs)
 		default:
 			m.T, m.K, m.PV = "gated", "oracle", 0
@@ -225,6 +306,19 @@ func (w *c16World) build(m c16Msg) (sdk.Msg, int) {
 			}
 			return &tftypes.MsgSudoSetDenomMetadata{Sender: sender, Metadata: md}, m.Sender
 		}
+	case "wasm":
+		// the contract is asked (by Sender) to dispatch the inner messages as Stargate messages
+		parts := []string{}
+		for _, x := range m.Msgs {
+			im, _ := w.build(x)
+			bz, err := proto.Marshal(im)
+			if err != nil {
+				panic(err)
+			}
+			parts = append(parts, fmt.Sprintf(`{"stargate":{"type_url":"%s","value":"%s"}}`, sdk.MsgTypeURL(im), base64.StdEncoding.EncodeToString(bz)))
+		}
+		payload := `{"reflect_msg":{"msgs":[` + strings.Join(parts, ",") + `]}}`
+		return &wasmtypes.MsgExecuteContract{Sender: sender, Contract: w.addr(m.C).String(), Msg: []byte(payload)}, m.Sender
 	default: // exec
 		var inner []sdk.Msg
 		for _, x := range m.Msgs {
@@ -248,6 +342,11 @@ func (w *c16World) deliver(msgs []sdk.Msg, signers []int) abci.ResponseDeliverTx
 			continue
 		}
 		seen[s] = true
+		if isContractID(s) {
+			// nobody holds a key for a contract address: the best an attacker can do is sign with a key of
+			// its own (the ante handler compares the public key with the signer address)
+			s = 0
+		}
 		acc := c.App.AccountKeeper.GetAccount(ctx, w.addrs[s])
 		privs = append(privs, w.privs[s])
 		nums = append(nums, acc.GetAccountNumber())
@@ -330,27 +429,45 @@ func (w *c16World) sudoers(t *testing.T) (int, []int) {
 	return id(s.Root), cs
 }
 
-func (w *c16World) runCase(t *testing.T, cs *c16Case) []c16Obs {
+// runCase returns the observations per tx and, per grant of the case, whether its MsgGrant was accepted
+// (the model takes every grant of the world as saved: a refused one is a mismatch, not a harness failure)
+func (w *c16World) runCase(t *testing.T, cs *c16Case) ([]c16Obs, []bool) {
 	w.freshActors(t)
 	cs.Root = ((cs.Root % nActors) + nActors) % nActors
 	for i := range cs.Contracts {
 		cs.Contracts[i] = ((cs.Contracts[i] % nActors) + nActors) % nActors
 	}
+	if len(cs.Owners) != nContracts {
+		cs.Owners = make([]int, nContracts)
+	}
+	for i := range cs.Owners {
+		cs.Owners[i] = ((cs.Owners[i] % nKeys) + nKeys) % nKeys
+	}
 	if cs.Genesis {
-		// a chain of its own, started from a genesis whose sudo section lists the contracts as given
+		// a chain of its own, started from a genesis whose sudo section lists the contracts as given;
+		// the two contract actors will be the first two instances of the first code of that chain
+		for i := 0; i < nContracts; i++ {
+			a := sdk.AccAddress(wasmkeeper.BuildContractAddressClassic(1, uint64(i+1)))
+			w.addrs = append(w.addrs, a)
+			w.ids[a.String()] = nKeys + i
+		}
 		raw := []string{}
 		for _, c := range cs.Contracts {
 			raw = append(raw, w.addr(c).String())
 		}
 		gs := sudotypes.GenesisState{Sudoers: sudotypes.Sudoers{Root: w.addr(cs.Root).String(), Contracts: raw}}
-		shared := w.c
-		w.c = NewChain(app.GenesisState{sudotypes.ModuleName: app.MakeEncodingConfig().Codec.MustMarshalJSON(&gs)})
-		defer func() { w.c = shared }()
+		shared, sharedCode := w.c, w.codeID
+		w.c, w.codeID = NewChain(app.GenesisState{sudotypes.ModuleName: app.MakeEncodingConfig().Codec.MustMarshalJSON(&gs)}), 0
+		defer func() { w.c, w.codeID = shared, sharedCode }()
 	}
 	c := w.c
 	c.BeginBlock(5 * time.Second)
 	defer c.EndBlock()
 	w.fundActors(t)
+	if w.codeID == 0 {
+		w.storeReflect(t)
+	}
+	w.instantiateContracts(t, cs.Owners)
 	if !cs.Genesis {
 		// sudoers as an earlier edit would have stored them: sorted, duplicate-free
 		set := map[string]bool{}
@@ -365,6 +482,7 @@ func (w *c16World) runCase(t *testing.T, cs *c16Case) []c16Obs {
 		c.App.SudoKeeper.Sudoers.Set(c.Ctx(), sudotypes.Sudoers{Root: w.addr(cs.Root).String(), Contracts: contracts})
 	}
 	// authz grants through real MsgGrant transactions
+	grantsOK := []bool{}
 	for i := range cs.Grants {
 		g := &cs.Grants[i]
 		g.Granter = ((g.Granter % nActors) + nActors) % nActors
@@ -376,9 +494,20 @@ func (w *c16World) runCase(t *testing.T, cs *c16Case) []c16Obs {
 		if err != nil {
 			t.Fatal(err)
 		}
-		if r := w.deliver([]sdk.Msg{mg}, []int{g.Granter}); r.Code != 0 {
-			t.Fatalf("grant setup failed: %s", r.Log)
+		var r abci.ResponseDeliverTx
+		if isContractID(g.Granter) {
+			// a contract grants by dispatching the MsgGrant itself, at its owner's request
+			owner := cs.Owners[g.Granter-nKeys]
+			bz, err := proto.Marshal(mg)
+			if err != nil {
+				t.Fatal(err)
+			}
+			payload := fmt.Sprintf(`{"reflect_msg":{"msgs":[{"stargate":{"type_url":"%s","value":"%s"}}]}}`, sdk.MsgTypeURL(mg), base64.StdEncoding.EncodeToString(bz))
+			r = w.deliver([]sdk.Msg{&wasmtypes.MsgExecuteContract{Sender: w.addr(owner).String(), Contract: w.addr(g.Granter).String(), Msg: []byte(payload)}}, []int{owner})
+		} else {
+			r = w.deliver([]sdk.Msg{mg}, []int{g.Granter})
 		}
+		grantsOK = append(grantsOK, r.Code == 0)
 	}
 	obs := []c16Obs{}
 	for _, tx := range cs.Txs {
@@ -397,19 +526,49 @@ func (w *c16World) runCase(t *testing.T, cs *c16Case) []c16Obs {
 		obs = append(obs, c16Obs{OK: r.Code == 0, Root: root, Contracts: cl, Code: r.Code,
 			SameSudo: d0[0] == d1[0], SameOracle: d0[1] == d1[1], SameInfl: d0[2] == d1[2], SameMeta: d0[3] == d1[3]})
 	}
-	return obs
+	return obs, grantsOK
 }
 
 // ---------------------------------------------------------------- generation
 
 var gkinds = []string{"oracle", "infl_edit", "infl_toggle", "meta"}
-var allKinds = []string{"edit", "root", "oracle", "infl_edit", "infl_toggle", "meta", "exec"}
+var allKinds = []string{"edit", "root", "oracle", "infl_edit", "infl_toggle", "meta", "exec", "wasm"}
 
 type shadow struct {
 	root      int
 	contracts map[int]bool
 	formerR   []int
 	removed   []int
+	owners    []int
+	grants    []c16Grant
+	dry       bool // generating a message that is meant to be refused: do not track its effect
+}
+
+// grantTo: a grant whose grantee is the given actor, if the case has one
+func (s *shadow) grantTo(r *Rng, grantee int) (c16Grant, bool) {
+	var l []c16Grant
+	for _, g := range s.grants {
+		if g.Grantee == grantee && g.Kind != "exec" && g.Kind != "wasm" {
+			l = append(l, g)
+		}
+	}
+	if len(l) == 0 {
+		return c16Grant{}, false
+	}
+	return l[r.Intn(len(l))], true
+}
+
+// a current sudoer (root or listed), the victim of choice of a spoofed message
+func (s *shadow) pickSudoer(r *Rng) int {
+	l := []int{}
+	for c := range s.contracts {
+		l = append(l, c)
+	}
+	sort.Ints(l)
+	if len(l) == 0 || r.Chance(3, 5) {
+		return s.root
+	}
+	return l[r.Intn(len(l))]
 }
 
 func (s *shadow) pickSender(r *Rng) int {
@@ -449,9 +608,25 @@ func perm(r *Rng, n int) []int {
 	return p
 }
 
-func genLeaf(r *Rng, s *shadow) c16Msg {
-	sender := s.pickSender(r)
-	switch r.Pick(18, 16, 3, 13, 50) {
+// genLeaf: one privileged message from sender (-1: picked among root / listed / removed / former root / anybody)
+func genLeaf(r *Rng, s *shadow, sender int) c16Msg { return genLeafKind(r, s, sender, "") }
+
+// genLeafKind: … of the given kind (edit | root | oracle | infl_edit | infl_toggle | meta; "": any)
+func genLeafKind(r *Rng, s *shadow, sender int, kind string) c16Msg {
+	if sender < 0 {
+		sender = s.pickSender(r)
+	}
+	pick := r.Pick(18, 16, 3, 13, 50)
+	switch kind {
+	case "":
+	case "edit":
+		pick = 0
+	case "root":
+		pick = 3
+	default:
+		pick = 4
+	}
+	switch pick {
 	case 0, 1, 2:
 		m := c16Msg{T: "edit", Sender: sender, Cs: []int{}}
 		n := r.Pick(1, 5, 3, 1)
@@ -476,7 +651,7 @@ func genLeaf(r *Rng, s *shadow) c16Msg {
 			}
 		}
 		m.Bad = r.Chance(1, 12)
-		if sender == s.root && !m.Bad {
+		if sender == s.root && !m.Bad && !s.dry {
 			for _, c := range m.Cs {
 				if m.Action == "add" {
 					s.contracts[c] = true
@@ -489,13 +664,16 @@ func genLeaf(r *Rng, s *shadow) c16Msg {
 		return m
 	case 3:
 		m := c16Msg{T: "root", Sender: sender, New: r.Intn(nActors)}
-		if sender == s.root && m.New != s.root {
+		if sender == s.root && m.New != s.root && !s.dry {
 			s.formerR = append(s.formerR, s.root)
 			s.root = m.New
 		}
 		return m
 	default:
 		m := c16Msg{T: "gated", Sender: sender, K: gkinds[r.Intn(4)], V: r.Intn(1000)}
+		if kind != "" {
+			m.K = kind
+		}
 		if r.Chance(1, 6) {
 			m.PV = r.Range(1, 2)
 		}
@@ -503,38 +681,129 @@ func genLeaf(r *Rng, s *shadow) c16Msg {
 	}
 }
 
-func genMsg(r *Rng, s *shadow, depth int) c16Msg {
-	if depth < 2 && r.Chance(22, 100) {
-		n := r.Pick(0, 8, 2, 1)
-		e := c16Msg{T: "exec", Msgs: []c16Msg{}}
-		for i := 0; i < n; i++ {
-			e.Msgs = append(e.Msgs, genMsg(r, s, depth+1))
-		}
-		// grantee: the inner signer itself, or anybody
-		if len(e.Msgs) > 0 && r.Chance(1, 3) {
-			if e.Msgs[0].T == "exec" {
-				e.Grantee = e.Msgs[0].Grantee
-			} else {
-				e.Grantee = e.Msgs[0].Sender
-			}
-		} else {
-			e.Grantee = r.Intn(nActors)
-		}
-		if r.Chance(1, 40) {
-			e.Msgs = []c16Msg{}
-		}
-		return e
+// genExec wraps n generated messages in a MsgExec; grantee < 0: the inner signer itself, or anybody
+func genExec(r *Rng, s *shadow, depth, grantee int) c16Msg {
+	n := r.Pick(0, 8, 2, 1)
+	e := c16Msg{T: "exec", Msgs: []c16Msg{}}
+	for i := 0; i < n; i++ {
+		e.Msgs = append(e.Msgs, genMsg(r, s, depth+1))
 	}
-	return genLeaf(r, s)
+	// grantee: the inner signer itself, or anybody
+	if grantee >= 0 {
+		e.Grantee = grantee
+	} else if len(e.Msgs) > 0 && r.Chance(1, 3) {
+		if e.Msgs[0].T == "exec" {
+			e.Grantee = e.Msgs[0].Grantee
+		} else {
+			e.Grantee = e.Msgs[0].Sender
+		}
+	} else {
+		e.Grantee = r.Intn(nActors)
+	}
+	if r.Chance(1, 40) {
+		e.Msgs = []c16Msg{}
+	}
+	return e
+}
+
+// genWasm: a contract (executed by its owner, sometimes by somebody else) dispatches 0-3 messages:
+// its own privileged messages, messages in somebody else's name, MsgExec with itself as grantee
+// (inner signer = itself, or a sudoer that may or may not have granted), MsgExec with a SPOOFED
+// grantee (the sudoer whose name the inner message carries), deeper nestings.
+func genWasm(r *Rng, s *shadow, depth int, c int) c16Msg {
+	if c < 0 {
+		c = nKeys + r.Intn(nContracts)
+	}
+	w := c16Msg{T: "wasm", C: c, Sender: s.owners[c-nKeys], Msgs: []c16Msg{}}
+	if r.Chance(1, 8) {
+		w.Sender = r.Intn(nKeys)
+	}
+	n := r.Pick(3, 75, 17, 5)
+	for i := 0; i < n; i++ {
+		var m c16Msg
+		switch r.Pick(30, 14, 20, 22, 5, 4, 5) {
+		case 0: // its own message
+			m = genLeaf(r, s, c)
+		case 1: // a leaf in somebody else's name
+			s.dry = true
+			m = genLeaf(r, s, -1)
+			s.dry = false
+		case 2: // honest exec: grantee = the contract; the inner signer is the contract, a granter of the contract, or a sudoer
+			if g, ok := s.grantTo(r, c); ok && r.Chance(3, 5) {
+				m = c16Msg{T: "exec", Grantee: c, Msgs: []c16Msg{genLeafKind(r, s, g.Granter, g.Kind)}}
+			} else if r.Chance(1, 3) {
+				m = c16Msg{T: "exec", Grantee: c, Msgs: []c16Msg{genLeaf(r, s, c)}}
+			} else {
+				s.dry = true
+				m = c16Msg{T: "exec", Grantee: c, Msgs: []c16Msg{genLeaf(r, s, s.pickSudoer(r))}}
+				s.dry = false
+			}
+		case 3: // exec with a spoofed grantee: the victim "grants itself"
+			s.dry = true
+			v := s.pickSudoer(r)
+			if r.Chance(1, 6) {
+				v = r.Intn(nActors)
+			}
+			m = c16Msg{T: "exec", Grantee: v, Msgs: []c16Msg{genLeaf(r, s, v)}}
+			if r.Chance(1, 5) {
+				m.Msgs = append(m.Msgs, genLeaf(r, s, v))
+			}
+			s.dry = false
+		case 4: // exec inside exec, the inner one spoofed
+			s.dry = true
+			v := s.pickSudoer(r)
+			m = c16Msg{T: "exec", Grantee: c, Msgs: []c16Msg{{T: "exec", Grantee: v, Msgs: []c16Msg{genLeaf(r, s, v)}}}}
+			s.dry = false
+		case 5: // the contract executes a contract (itself or the other one)
+			if depth < 2 {
+				m = genWasm(r, s, depth+1, nKeys+r.Intn(nContracts))
+				m.Sender = c
+			} else {
+				m = genLeaf(r, s, c)
+			}
+		default:
+			if depth < 2 {
+				m = genMsg(r, s, depth+1)
+			} else {
+				m = genLeaf(r, s, -1)
+			}
+		}
+		w.Msgs = append(w.Msgs, m)
+	}
+	return w
+}
+
+func genMsg(r *Rng, s *shadow, depth int) c16Msg {
+	if depth < 2 {
+		switch r.Pick(60, 20, 20) {
+		case 1:
+			return genExec(r, s, depth, -1)
+		case 2:
+			return genWasm(r, s, depth, -1)
+		}
+	}
+	m := genLeaf(r, s, -1)
+	if depth == 0 && isContractID(m.Sender) && r.Chance(9, 10) {
+		// a contract cannot sign a tx: it sends its message by dispatching it
+		w := c16Msg{T: "wasm", C: m.Sender, Sender: s.owners[m.Sender-nKeys], Msgs: []c16Msg{m}}
+		if r.Chance(1, 4) {
+			w.Msgs = []c16Msg{{T: "exec", Grantee: m.Sender, Msgs: []c16Msg{m}}}
+		}
+		return w
+	}
+	return m
 }
 
 func genC16Case(r *Rng) c16Case {
-	cs := c16Case{Root: r.Intn(nActors), Contracts: []int{}, Grants: []c16Grant{}}
+	cs := c16Case{Root: r.Intn(nKeys), Contracts: []int{}, Grants: []c16Grant{}, Owners: []int{r.Intn(nKeys), r.Intn(nKeys)}}
+	if r.Chance(1, 7) {
+		cs.Root = nKeys + r.Intn(nContracts) // the root is a contract
+	}
 	nc := r.Pick(3, 3, 3, 3, 2)
 	for i := 0; i < nc; i++ {
 		cs.Contracts = append(cs.Contracts, r.Intn(nActors))
 	}
-	sh := &shadow{root: cs.Root, contracts: map[int]bool{}}
+	sh := &shadow{root: cs.Root, contracts: map[int]bool{}, owners: cs.Owners}
 	for _, c := range cs.Contracts {
 		sh.contracts[c] = true
 	}
@@ -544,11 +813,19 @@ func genC16Case(r *Rng) c16Case {
 		if r.Chance(1, 2) {
 			g.Granter = sh.pickSender(r) // a sudoer lends its authority
 		}
+		if r.Chance(1, 3) {
+			g.Grantee = nKeys + r.Intn(nContracts) // … to a contract
+			if r.Chance(2, 3) {
+				g.Granter = sh.pickSudoer(r)
+				g.Kind = allKinds[r.Intn(6)]
+			}
+		}
 		if g.Granter == g.Grantee {
 			g.Grantee = (g.Grantee + 1) % nActors
 		}
 		cs.Grants = append(cs.Grants, g)
 	}
+	sh.grants = cs.Grants
 	if r.Chance(22, 100) {
 		genesisPhases(r, &cs, sh)
 	}
@@ -563,7 +840,7 @@ func genC16Case(r *Rng) c16Case {
 		// a removal of several contracts in one message is followed by a gated op from every one of them
 		if len(tx) == 1 && tx[0].T == "edit" && tx[0].Action == "remove" && len(tx[0].Cs) >= 2 {
 			for _, c := range tx[0].Cs {
-				cs.Txs = append(cs.Txs, []c16Msg{{T: "gated", K: gkinds[r.Intn(4)], Sender: c, V: r.Intn(1000)}})
+				cs.Txs = append(cs.Txs, sent(sh, c16Msg{T: "gated", K: gkinds[r.Intn(4)], Sender: c, V: r.Intn(1000)}))
 			}
 		}
 	}
@@ -573,6 +850,15 @@ func genC16Case(r *Rng) c16Case {
 // genesisPhases: the sudoers come from a generated genesis (0-6 contracts in random order, duplicates,
 // root listed or not); every listed contract, the root and the strangers send gated ops of every
 // module before any edit, then after a root hand-over, then after an edit.
+// sent: the way the sender of m really sends it — a key account in a tx of its own, a contract by
+// dispatching it at its owner's request
+func sent(sh *shadow, m c16Msg) []c16Msg {
+	if isContractID(m.Sender) {
+		return []c16Msg{{T: "wasm", C: m.Sender, Sender: sh.owners[m.Sender-nKeys], Msgs: []c16Msg{m}}}
+	}
+	return []c16Msg{m}
+}
+
 func genesisPhases(r *Rng, cs *c16Case, sh *shadow) {
 	cs.Genesis = true
 	cs.Contracts = []int{}
@@ -590,13 +876,13 @@ func genesisPhases(r *Rng, cs *c16Case, sh *shadow) {
 	everybody := func() {
 		k := r.Intn(4)
 		for _, a := range perm(r, nActors) {
-			cs.Txs = append(cs.Txs, []c16Msg{{T: "gated", K: gkinds[(k+a)%4], Sender: a, V: r.Intn(1000)}})
+			cs.Txs = append(cs.Txs, sent(sh, c16Msg{T: "gated", K: gkinds[(k+a)%4], Sender: a, V: r.Intn(1000)}))
 		}
 	}
 	everybody()
 	if r.Chance(2, 3) {
 		nr := r.Intn(nActors)
-		cs.Txs = append(cs.Txs, []c16Msg{{T: "root", Sender: sh.root, New: nr}})
+		cs.Txs = append(cs.Txs, sent(sh, c16Msg{T: "root", Sender: sh.root, New: nr}))
 		if nr != sh.root {
 			sh.formerR = append(sh.formerR, sh.root)
 			sh.root = nr
@@ -605,7 +891,7 @@ func genesisPhases(r *Rng, cs *c16Case, sh *shadow) {
 	}
 	if r.Chance(2, 3) {
 		m := c16Msg{T: "edit", Action: []string{"add", "remove"}[r.Intn(2)], Sender: sh.root, Cs: []int{r.Intn(nActors)}}
-		cs.Txs = append(cs.Txs, []c16Msg{m})
+		cs.Txs = append(cs.Txs, sent(sh, m))
 		if m.Action == "add" {
 			sh.contracts[m.Cs[0]] = true
 		} else {
@@ -664,8 +950,43 @@ func openers() []c16Case {
 				{{T: "exec", Grantee: 3, Msgs: []c16Msg{{T: "exec", Grantee: 3, Msgs: []c16Msg{gated("oracle", 3)}}}}},
 				{{T: "exec", Grantee: 5, Msgs: []c16Msg{gated("oracle", 5)}}},
 				{{T: "exec", Grantee: 2, Msgs: []c16Msg{}}}}},
+		// message carriers: contract 7 (owner 3) is a stranger, contract 6 (owner 2) is a listed sudo contract.
+		// A listed contract gets its own messages through (plain, or under an exec it is the grantee of);
+		// nobody gets anything through in the name of the root or of the listed contract: plain spoof,
+		// MsgExec with a SPOOFED GRANTEE (x/authz accepts an inner signer equal to the grantee without a
+		// grant, so the wrapper itself must be checked against the dispatching contract), the same one
+		// level deeper, and with a real grant root -> 7 (then grantee 7 works, grantee 0 still does not).
+		{Root: 0, Contracts: []int{6}, Owners: []int{2, 3}, Grants: []c16Grant{{0, 7, "infl_toggle"}, {6, 5, "meta"}},
+			Txs: [][]c16Msg{
+				{wasm(2, 6, gated("oracle", 6))},
+				{wasm(2, 6, exec(6, gated("infl_edit", 6)))},
+				{wasm(3, 7, gated("oracle", 7))},
+				{wasm(3, 7, gated("oracle", 0))},
+				{wasm(3, 7, exec(0, c16Msg{T: "edit", Action: "add", Sender: 0, Cs: []int{7}}))},
+				{wasm(3, 7, gated("infl_toggle", 7))},
+				{wasm(3, 7, exec(0, gated("infl_toggle", 0)))},
+				{wasm(3, 7, exec(6, gated("meta", 6)))},
+				{wasm(3, 7, exec(0, c16Msg{T: "root", Sender: 0, New: 7}))},
+				{wasm(3, 7, exec(7, exec(0, gated("oracle", 0))))},
+				{wasm(3, 7, exec(7, gated("infl_toggle", 0)))},
+				{wasm(3, 7, exec(7, gated("oracle", 0)))},
+				{exec(5, gated("meta", 6))},
+				{wasm(3, 6, gated("oracle", 6))},
+				{gated("oracle", 6)},
+				{exec(3, wasm(2, 6, gated("infl_edit", 6)))},
+				{wasm(2, 6, c16Msg{T: "edit", Action: "add", Sender: 6, Cs: []int{7}})},
+				{{T: "root", Sender: 0, New: 6}},
+				{wasm(2, 6, c16Msg{T: "edit", Action: "add", Sender: 6, Cs: []int{7}})},
+				{wasm(3, 7, gated("oracle", 7))},
+				{wasm(2, 6, c16Msg{T: "root", Sender: 6, New: 1}), wasm(3, 7, gated("meta", 7))},
+				{wasm(2, 6, gated("oracle", 6))}}},
 	}
 }
+
+func wasm(sender, c int, ms ...c16Msg) c16Msg {
+	return c16Msg{T: "wasm", Sender: sender, C: c, Msgs: ms}
+}
+func exec(grantee int, ms ...c16Msg) c16Msg { return c16Msg{T: "exec", Grantee: grantee, Msgs: ms} }
 
 func TestC16(t *testing.T) {
 	cfg := LoadCfg(t, 150, 3000)
@@ -676,8 +997,8 @@ func TestC16(t *testing.T) {
 		if w.caseNo > 0 && w.caseNo%400 == 0 {
 			w = &c16World{c: NewChain(nil), caseNo: w.caseNo}
 		}
-		obs := w.runCase(t, &cs)
-		em.Emit(cs, obs, nil)
+		obs, grantsOK := w.runCase(t, &cs)
+		em.Emit(cs, obs, map[string]interface{}{"grants_ok": grantsOK})
 	}
 	if cfg.Replay != "" {
 		for _, raw := range cfg.ReplayInputs(t) {
